@@ -197,6 +197,100 @@ def rule_reader_agrees(ctx, facts, rule, table):
                       "parse calls: %s" % [g.term(b)["callee"] for b in ps], extra="reader")
 
 
+SIGN_RECOGNISERS = r"is_ascii_hexdigit$|char::methods::<impl char>::(is_digit|to_digit|is_ascii_hexdigit)$|<impl u8>::is_ascii_hexdigit$|" \
+                   r"<impl str>::(starts_with|strip_prefix|trim_start_matches)$"
+
+
+def rule_sign_rejected(ctx, facts, rule):
+    """from_str_radix accepts a leading '+' (documented). A traceparent field with a sign is not a hexadecimal number, so
+    each field must pass an alphabet / sign test that dominates its parse (or the parse result is compared with the field's
+    digits some other way: none of the accepted idioms below -> reported)."""
+    prov = Prov(facts)
+    path = ID + "SpanContext::decode_w3c_traceparent"
+    fn = ctx.need_fn(facts, path, rule)
+    if fn is None:
+        return
+    nexts = [b for b in fn.calls_re(r"Iterator>?::next$", cleanup=False) if "Split<" in fn.term(b)["arg_tys"][0]]
+    nexts.sort(key=lambda b: len(fn.dominators().get(b, ())))
+
+    def fields_of(origins):
+        idx = set()
+        for o in origins:
+            for v in o.via:
+                if v[0] == "call" and v[2] in nexts and v[1].endswith("::next"):
+                    idx.add(nexts.index(v[2]))
+        return idx
+    parses = [b for b in fn.calls_re(r"core::num::<impl u\d+>::from_str_radix$", cleanup=False)]
+    if not ctx.floor(rule, path, len(parses), 3, "from_str_radix calls in the decoder"):
+        return
+    # boolean tests that look at a field's characters
+    tests = []
+    for b, blk in enumerate(fn.blocks):
+        t = blk["term"]
+        if t["k"] != "switch" or t["discr_ty"] != "bool" or t["discr"]["k"] == "const":
+            continue
+        origins = prov.of_operand(fn, t["discr"])
+        rec = any(v[0] == "call" and re.search(SIGN_RECOGNISERS, v[1]) for o in origins for v in o.via)
+        if rec:
+            tests.append((b, fields_of(origins)))
+    for b in parses:
+        t = fn.term(b)
+        ks = fields_of(prov.of_operand(fn, t["args"][0]))
+        ok = False
+        for k in ks:
+            for sb, fs in tests:
+                if k not in fs:
+                    continue
+                for d, lab in fn.edges(sb):
+                    if fn.guarded([b], {(sb, d, lab)}):
+                        ok = True
+        ctx.check(ok, rule, path, fn.loc(b),
+                  "a field reaches from_str_radix only past a test of its characters (from_str_radix accepts a leading '+', "
+                  "which is not a hexadecimal digit)",
+                  "field %s tested before the parse" % sorted(ks),
+                  "field %s is parsed by %s with no dominating alphabet / sign test: decode_w3c_traceparent("
+                  "\"00-+af7651916cd43dd8448eb211c80319c-b7ad6b7169203331-01\") is Some(..)" % (sorted(ks), t["callee"].split("::")[-2:]),
+                  extra="sign-field%s" % "".join(map(str, sorted(ks))))
+
+
+def rule_values_not_tested(ctx, facts, rule):
+    """Acceptance is decided by the text alone: once a field parsed, no test of the parsed VALUE can lead to a None
+    result (the writer emits every value, so rejecting some value breaks encode -> decode for it)."""
+    prov = Prov(facts)
+    path = ID + "SpanContext::decode_w3c_traceparent"
+    fn = ctx.need_fn(facts, path, rule)
+    if fn is None:
+        return
+    none_blocks = set()
+    for b, blk in enumerate(fn.blocks):
+        for st in blk["stmts"]:
+            if st["k"] == "assign" and st["lhs"]["l"] == 0 and not st["lhs"]["p"]:
+                rv = st["rv"]
+                if (rv["k"] == "agg" and rv.get("variant") == "None") or \
+                        (rv["k"] == "use" and rv["op"]["k"] == "const" and "None" in str(rv["op"].get("repr"))):
+                    none_blocks.add(b)
+    n_parse = len(fn.calls_re(r"core::num::<impl u\d+>::from_str_radix$", cleanup=False))
+    bad = []
+    n_sw = 0
+    for b, blk in enumerate(fn.blocks):
+        t = blk["term"]
+        if t["k"] != "switch" or t["discr_ty"] == "isize" or t["discr"]["k"] == "const":
+            continue
+        origins = prov.of_operand(fn, t["discr"])
+        if not any(v[0] == "call" and "from_str_radix" in v[1] for o in origins for v in o.via):
+            continue
+        n_sw += 1
+        r = fn.reach([(b, d) for d, _ in fn.edges(b)])
+        hit = sorted(r & none_blocks)
+        if hit:
+            bad.append((fn.loc(b), hit))
+    ctx.check(not bad and n_parse >= 1, rule, path, fn.span,
+              "no test of a parsed id / flags value leads to a None result (every value the writer can emit is accepted back)",
+              "%d parse calls, %d value tests, %d explicit None results" % (n_parse, n_sw, len(none_blocks)),
+              "a parsed value is tested at %s and one outcome returns None: the header the encoder writes for that value no "
+              "longer decodes" % bad, extra="value-tests")
+
+
 def rule_error_discipline(ctx, facts, rule):
     fns = [ID + "SpanContext::decode_w3c_traceparent"] + [
         "<fastrace::collector::id::%s as %s" % (ty, tr) for ty in ("TraceId", "SpanId")
